@@ -3,6 +3,7 @@ package c08
 
 import (
 	"bufio"
+	"context"
 	"crypto/tls"
 	"fmt"
 	"net"
@@ -96,6 +97,8 @@ type spec struct {
 	passHost  bool
 	body      string
 	resp      []hdr
+	// tlsBackend: the chosen backend is an https:// URL (plain front, re-encryption behind)
+	tlsBackend bool
 }
 
 func genSpec(t *rapid.T) *spec {
@@ -136,6 +139,7 @@ func genSpec(t *rapid.T) *spec {
 	}
 	s.tls = rapid.Bool().Draw(t, "tls")
 	s.passHost = rapid.Bool().Draw(t, "passHost")
+	s.tlsBackend = rapid.IntRange(0, 3).Draw(t, "tlsBackend") == 0
 	if s.method == "POST" || s.method == "PUT" {
 		s.body = rapid.StringMatching(`[a-z]{0,20}`).Draw(t, "body")
 	}
@@ -170,7 +174,12 @@ func (s *spec) raw() string {
 }
 
 var backend *sim.Backend
-var transport = &http.Transport{}
+
+// DialTLSContext hands back a plain connection: the raw backend then also stands in for a
+// re-encrypting (https://) backend, which the forwarder only knows by the scheme of req.URL.
+var transport = &http.Transport{DialTLSContext: func(ctx context.Context, network, addr string) (net.Conn, error) {
+	return (&net.Dialer{}).DialContext(ctx, network, addr)
+}}
 var ownHost, _ = os.Hostname()
 
 func getBackend(t interface{ Fatalf(string, ...any) }) *sim.Backend {
@@ -229,14 +238,18 @@ func check(fatalf func(string, ...any), s *spec) (discarded bool) {
 	}
 	clientHost := req.Host
 	clientHeader := req.Header.Clone()
-	req.URL = &url.URL{Scheme: "http", Host: be.Addr()}
+	scheme := "http"
+	if s.tlsBackend {
+		scheme = "https"
+	}
+	req.URL = &url.URL{Scheme: scheme, Host: be.Addr()}
 	fwd := forward.New(s.passHost)
 	fwd.Transport = transport
 	rec := sim.NewRecorder()
 	fwd.ServeHTTP(rec, req)
 	reqs := be.Requests()
 	bad := func(f string, a ...any) {
-		fatalf("%s\nclient request:\n%s\npeer=%s tls=%v passHost=%v", fmt.Sprintf(f, a...), strings.ReplaceAll(raw, "\r\n", "\n"), s.peer, s.tls, s.passHost)
+		fatalf("%s\nclient request:\n%s\npeer=%s tls=%v passHost=%v httpsBackend=%v", fmt.Sprintf(f, a...), strings.ReplaceAll(raw, "\r\n", "\n"), s.peer, s.tls, s.passHost, s.tlsBackend)
 	}
 	if len(reqs) != before+1 {
 		bad("the backend received %d requests for one client request (proxy status %d)", len(reqs)-before, rec.Status())
